@@ -501,6 +501,17 @@ def replay_stale_own_dump(body):
     return (1 if p.returncode == 1 else 0), ('the older own dump was renamed over the installed snapshot: the restarted node forgot acknowledged entries' if p.returncode == 1 else 'the own dump child was stopped')
 
 
+def replay_handshake(body):
+    """runs repros/D23_unhashable_handshake.py: arbitrary picklable first messages on an incoming connection (lists that are no utility command,
+    the empty list, dicts, nested lists, numbers, None, bytes): the connection must be dropped, nothing may raise out of the handler"""
+    import subprocess
+    here = os.path.dirname(os.path.abspath(__file__))
+    p = subprocess.run([sys.executable, os.path.join(here, 'repros', 'D23_unhashable_handshake.py')], stdout=subprocess.PIPE, stderr=subprocess.STDOUT, env=dict(os.environ), timeout=100)
+    for l in p.stdout.decode('utf-8', 'replace').strip().split('\n')[-4:]:
+        out(l)
+    return (1 if p.returncode == 1 else 0), ('a malformed first message raises out of the event loop' if p.returncode == 1 else 'malformed first messages get the connection dropped')
+
+
 def replay_meta(body):
     """kill-point enumeration on the real MetaStorer.storeMeta: the k-th primitive file operation (open / write / flush / close /
     os.remove / os.rename / shutil.move ...) is the last one to happen before the process dies; the .meta file is then read back"""
@@ -633,6 +644,7 @@ REPLAYERS = {
     'ResizableFile.write': replay_journal, 'FileJournal.add': replay_journal, 'FileJournal.reopen': replay_journal,
     'FileJournal.deleteEntriesFrom': replay_journal, 'FileJournal.clear': replay_journal,
     'MetaStorer.storeMeta': replay_meta,
+    'transport.incoming': replay_handshake,
     'serializer.setTransmissionData.file': replay_stale_own_dump,
     'transport.maybeBind': replay_deaf_server,
     'poller.select.dispatch': replay_select_dispatch,
